@@ -40,7 +40,8 @@ EXPECTED_PROBES = ["write_pandas", "write_dask", "read_pandas", "read_dask", "re
                    "read_dask_glob", "columns_projection", "nonfloat64_subtype",
                    "sliced_or_concat_backing", "ge_11_partitions",
                    "dataset_written_again_at_same_path", "dataset_written_from_a_frame_read_back",
-                   "earlier_lazy_read_computed_again"]
+                   "earlier_lazy_read_computed_again",
+                   "read_dask_list_of_pandas_file_and_dask_dataset"]
 
 
 def cases(tier, base_seed):
@@ -89,9 +90,14 @@ def cases(tier, base_seed):
                 steps.append({"op": "read_dask", "how": "list",
                               "ds": rng.choice((["D0", "D1"], ["D1", "D0"])),
                               "columns": proj()})
-            elif r < 0.9:
+            elif r < 0.85:
                 steps.append({"op": "read_dask", "how": "glob", "ds": ["D0", "D1"],
                               "columns": proj()})
+            elif r < 0.93:
+                # a file written by the pandas writer and a dataset written by the Dask writer
+                # in one read (they store a default / unnamed index differently)
+                steps.append({"op": "read_dask", "how": "writers",
+                              "ds": rng.choice((["P", "D0"], ["D0", "P"])), "columns": proj()})
             else:
                 steps.append({"op": "read_dask", "how": "mixed", "ds": ["D0", "D1", "D2"],
                               "glob_first": rng.random() < 0.5, "columns": proj()})
@@ -219,6 +225,7 @@ def _drive_steps(case, root, fs, probes, sig):
             _guard("to_parquet", lambda: to_parquet(gdf, paths["P"], filesystem=fs,
                                                     compression=step["compression"]), sig)
             model["P"] = step["rows"]
+            version["P"] = version.get("P", 0) + 1
         elif op == "write_dask":
             probes["write_dask"] = 1
             if step["nparts"] >= 11:
@@ -281,6 +288,9 @@ def _drive_steps(case, root, fs, probes, sig):
                 arg = [g, paths["D2"]] if step["glob_first"] else [paths["D2"], g]
                 dss = ["D0", "D1", "D2"] if step["glob_first"] else ["D2", "D0", "D1"]
                 probes["read_dask_list_mixing_glob_and_path"] = 1
+            elif step["how"] == "writers":
+                arg = [paths[d] for d in dss]
+                probes["read_dask_list_of_pandas_file_and_dask_dataset"] = 1
             elif step["how"] == "list":
                 arg = [paths[d] for d in dss]
                 probes["read_dask_list"] = 1
@@ -300,7 +310,7 @@ def _drive_steps(case, root, fs, probes, sig):
                 raise Bad("columns-argument-mutated", f"read_parquet_dask changed the caller's "
                           f"columns list from {given} to {cols}")
             # a list is read in the order given, a glob in sorted path order
-            order = dss if step["how"] in ("list", "mixed") else sorted(dss)
+            order = dss if step["how"] in ("list", "mixed", "writers") else sorted(dss)
             rows = [r for d in order for r in model[d]]
             _compare(got, spec, rows, cols, f"read_parquet_dask[{step['how']}]", GeoDataFrame, sig)
             lazy.append((ddf, rows, given, {d: version.get(d, 0) for d in dss}))
